@@ -1,6 +1,7 @@
 """Shared pipeline of the Meta.tla family: model-check a schema shape, derive
 transition tours / simulated behaviours, replay them on a real MetaModel and let
 TLC validate the recorded traces."""
+import json
 import os
 
 from . import common, replay, schemas, sim, tlagen, tlc, tours, trace
@@ -22,6 +23,26 @@ def to_act(label):
         return ['Delete', args[0][0], args[0][1]]
     if name == 'HRelateNone':
         return ['RelateNone']
+    if name == 'VNewD':
+        return ['New', args[0], [], {}]
+    if name == 'VNew':
+        kw = args[2]
+        if isinstance(kw, list):      # TLC prints a function with domain 1..n as a tuple; never for string keys
+            kw = {}
+        return ['New', args[0], list(args[1]) if not isinstance(args[1], dict) else [], dict(kw)]
+    if name == 'VNewUnknown':
+        return ['NewUnknown', args[0]]
+    if name == 'VSetAttr':
+        return ['SetAttr', args[0][0], args[0][1], args[1], args[2]]
+    if name == 'VDelAttr':
+        return ['DelAttr', args[0][0], args[0][1], args[1]]
+    if name in ('VGenNext', 'VGenPeek'):
+        return [name[1:]]
+    if name in ('VRelate', 'VUnrelate'):
+        x, y, r, p = args
+        return [name[1:], x[0], x[1], y[0], y[1], r, p]
+    if name == 'VDelete':
+        return ['Delete', args[0][0], args[0][1]]
     out = [name[1:] if name.startswith('H') else name]
     for a in args:
         if isinstance(a, frozenset):
@@ -35,7 +56,7 @@ def mc_files(schema, bound, maxi=None, genkind='int', userids=(), spec='Spec', i
     c = schemas.constants(schema, maxi or bound, genkind, userids)
     c['Bound'] = {k: bound for k in schema['classes']} if isinstance(bound, int) else dict(bound)
     c.update(extra_consts or {})
-    mod = tlagen.mc_module('MC_Meta', ['Meta'], c)
+    mod = tlagen.mc_module('MC_Meta', ['MetaObs'], c)
     cfg = tlagen.cfg_constants(c) + 'SPECIFICATION %s\n' % spec
     cfg += ''.join('INVARIANT %s\n' % i for i in invariants)
     cfg += ''.join('PROPERTY %s\n' % p for p in properties)
@@ -54,7 +75,7 @@ def trace_files(schema, maxi, genkind='int', userids=(), extra_consts=None, modu
 def model_check(schema, bound, dump=True, timeout=1200, workers=None,
                 must_cover=('HNew', 'HRelate', 'HUnrelate', 'HDelete'), **kw):
     mod, cfg, _ = mc_files(schema, bound, **kw)
-    d = tlc.prepare_dir(['Meta'], {'MC_Meta.tla': mod, 'mc.cfg': cfg})
+    d = tlc.prepare_dir(['Meta', 'MetaObs'], {'MC_Meta.tla': mod, 'mc.cfg': cfg})
     args = ()
     dot = os.path.join(d, 'g.dot')
     if dump:
@@ -91,6 +112,149 @@ def replay_validate(schema, runs, header=None, maxi=None, genkind='int', userids
     maxi = maxi or max_ordinal(runs)
     mod, consts = trace_files(schema, maxi, genkind, userids, extra_consts, module)
     verdicts, st = trace.validate('MC_' + module, consts, traces,
-                                  modules=['Meta', 'MetaTrace', 'TraceBase', module],
+                                  modules=['Meta', 'MetaObs', 'MetaTrace', 'TraceBase', module],
                                   extra={'MC_%s.tla' % module: mod})
     return traces, verdicts, st
+
+
+# ---------------------------------------------------------------------------
+# generic plan runner shared by the properties decided with the Meta family
+import concurrent.futures
+import random as _random
+
+from . import evidence as _evidence
+
+
+def _plan_job(args):
+    plan, tier, seed = args
+    schema = schemas.SCHEMAS[plan['schema']]
+    rnd = _random.Random(seed * 1009 + sum(map(ord, plan['name'])))
+    bound = plan['bound'][tier] if isinstance(plan['bound'], dict) and tier in plan['bound'] else plan['bound']
+    maxb = bound if isinstance(bound, int) else max(bound.values())
+    extra = {}
+    if 'alpha' in plan:
+        extra['Alpha'] = set(plan['alpha'])
+    if 'vals' in plan:
+        extra['Vals'] = plan['vals']
+    genkind = plan.get('gen', 'int')
+    userids = plan.get('userids', ())
+    r = g = None
+    runs = []
+    covered = total = 0
+    if plan.get('model', True):
+        r, g, d = model_check(schema, bound, maxi=maxb, workers=plan.get('workers', 4), spec=plan.get('spec', 'Spec'),
+                              invariants=plan.get('invariants', INVARIANTS), properties=plan.get('properties', PROPERTIES),
+                              must_cover=plan.get('must_cover', ()), extra_consts=extra, genkind=genkind if genkind != 'uuid' else 'int',
+                              userids=userids, timeout=plan.get('timeout', 1500))
+        budget = plan.get('budget', 6000) if tier == 'quick' else plan.get('budget_thorough')
+        stages = plan.get('stages') or [(lambda lab, dst: True, 1.0)]
+        ts, covered, total = tours.staged_tours(g, stages, maxlen=plan.get('maxlen', 40), budget=budget, seed=seed)
+        runs += [{'acts': [to_act(l) for l in t], 'src': 'tour'} for t in ts]
+        simc = plan.get('sim')
+        if simc:
+            num, depth, sb = simc[tier]
+            mod, cfg, _ = mc_files(schema, sb, maxi=sb if isinstance(sb, int) else max(sb.values()),
+                                   spec=plan.get('spec', 'Spec'), invariants=[], properties=[],
+                                   extra_consts=extra, genkind=genkind if genkind != 'uuid' else 'int', userids=userids)
+            with open(os.path.join(d, 'MC_Meta.tla'), 'w') as f:
+                f.write(mod)
+            with open(os.path.join(d, 'sim.cfg'), 'w') as f:
+                f.write(cfg)
+            beh = sim.simulate(d, 'MC_Meta', 'sim.cfg', num=num, depth=depth, seed=seed + 7, workers=2)
+            runs += [{'acts': [to_act(l) for l in b], 'src': 'simulate'} for b in beh]
+    if plan.get('random'):
+        for x in plan['random'](schema, rnd, tier):
+            x.setdefault('src', 'random')
+            runs.append(x)
+    if plan.get('obs'):
+        for x in runs:
+            if 'obs' not in x:
+                x['obs'] = plan['obs'](schema, x['acts'], rnd)
+    if not runs:
+        raise common.MachineryError('plan %s produced no behaviours' % plan['name'])
+    traces, verdicts, st = replay_validate(schema, runs, header={'opt': plan.get('opt', {})}, genkind=genkind,
+                                           userids=userids)
+    return plan, bound, r, g, covered, total, runs, verdicts, st
+
+
+def to_act_value(label):
+    return to_act(label)
+
+
+def run_plans(pid, tier, plans, replay_path, rule, model_text, assumptions, sig_extra=None, parallel=4):
+    t = common.Timer()
+    rep = _evidence.Report(pid)
+    seed = common.seed()
+    if replay_path:
+        obj = common.read_json(replay_path)
+        plan = dict([p for p in plans if p['name'] == obj['plan']][0])
+        plan['model'] = False
+        run = {'acts': obj['acts'], 'src': 'replay'}
+        if obj.get('obs'):
+            run['obs'] = obj['obs']
+        plan['random'] = lambda schema, rnd, tier: [run]
+        plan['obs'] = None
+        results = [_plan_job((plan, tier, seed))]
+    else:
+        with concurrent.futures.ThreadPoolExecutor(max_workers=parallel) as ex:
+            results = list(ex.map(_plan_job, [(p, tier, seed) for p in plans]))
+    cov = {'states': 0, 'transitions': 0, 'traces_validated_against_impl': 0, 'evaluations': 0,
+           'tour_edges_covered': 0, 'tour_edges_total': 0, 'plans': {}, 'calls_per_outcome': {},
+           'observations_checked': 0, 'observations_by_kind': {}}
+    distinct = set()
+    samples = []
+    for plan, bound, r, g, covered, total, runs, verdicts, st in results:
+        name = plan['name']
+        if r:
+            cov['states'] += r.distinct
+            cov['transitions'] += r.generated
+        cov['plans'][name] = {'schema': plan['schema'], 'bound': bound, 'states': r.distinct if r else 0,
+                              'transitions': r.generated if r else 0,
+                              'edges_by_action': dict(g.actions) if g else {}, 'tour_edges_covered': covered,
+                              'tour_edges_total': total, 'traces': len(runs), 'steps': st['steps']}
+        cov['tour_edges_covered'] += covered
+        cov['tour_edges_total'] += total
+        cov['evaluations'] += st['steps']
+        for v, run in zip(verdicts, runs):
+            pre = None
+            upto = len(v.trace) if v.ok else v.step
+            for e in v.trace[:upto]:
+                key = '%s/%s' % (e['op'], e['res'] if not e['res'].startswith('u:') else 'id')
+                cov['calls_per_outcome'][key] = cov['calls_per_outcome'].get(key, 0) + 1
+                post = (str(e['pool']), str(e['nav']), str(e['attr']))
+                if post != pre or e['res'] not in ('True', 'none'):
+                    distinct.add((name, e['op'], str(e.get('x', e.get('c'))), str(e.get('y', e.get('n'))),
+                                  str(e.get('rel', e.get('v'))), e.get('ph'), pre))
+                pre = post
+                for q, qr in zip(e.get('q', []), e.get('qr', [])):
+                    cov['observations_checked'] += 1
+                    cov['observations_by_kind'][q['k']] = cov['observations_by_kind'].get(q['k'], 0) + 1
+                    distinct.add((name, 'obs', json.dumps(q, sort_keys=True), json.dumps(qr, sort_keys=True)))
+            if v.ok:
+                cov['traces_validated_against_impl'] += 1
+                if len(samples) < 3 and len(v.trace) > 6:
+                    samples.append({'plan': name, 'source': run['src'],
+                                    'calls': [[e['op'], e.get('x', e.get('c')), e.get('y', e.get('n')),
+                                               e.get('rel', e.get('v')), e.get('ph'), e['res']] for e in v.trace[:10]],
+                                    'observations': [[q, qr] for e in v.trace[:10]
+                                                     for q, qr in zip(e.get('q', []), e.get('qr', []))][:4]})
+            else:
+                e = v.event()
+                sig = {'plan': name, 'op': e['op'], 'res': e['res'], 'clause': v.clause}
+                if v.clause == 'query' and v.expected:
+                    sig['query'] = v.expected[0].get('k') if isinstance(v.expected[0], dict) else str(v.expected[0])
+                if sig_extra:
+                    sig.update(sig_extra(e, v))
+                rep.failure(sig, {'plan': name, 'acts': run['acts'][:v.step], 'obs': (run.get('obs') or [])[:v.step],
+                                  'step': v.step, 'clause': v.clause, 'event': e, 'spec_expected': repr(v.expected)[:3000]})
+    rc = rep.finish()
+    if replay_path:
+        return rc
+    cov['distinct_nontrivial'] = len(distinct)
+    cov['rule'] = rule
+    cov['samples'] = samples or [{'note': 'none'}]
+    cov['model'] = model_text
+    cov['exhaustive'] = bool(tier == 'thorough' and cov['tour_edges_total'] > 0 and
+                             cov['tour_edges_covered'] == cov['tour_edges_total'])
+    _evidence.write(pid, tier, 'model_checking', cov, t.s(), rep.n, assumptions)
+    return rc
